@@ -372,6 +372,41 @@ theorem recognised_by_mask_or_password {pwOk : Str → Str → Bool} {pst : PSt}
   | missing => rw [hl] at ha; cases ha
   | duplicate => rw [hl] at ha; cases ha
 
+/-- **Account names.**  In every state reachable through the User plugin and NICK messages no
+account name looks like a hostmask — so every account can be addressed by its name — and no two
+accounts have the same name (compared ASCII case-insensitively, as `getUserId` compares names):
+`register` and `changename` look the new name up first and refuse hostmask-like names
+(`guard_names`), and no other command's operation touches a name (`step_sig_same`). -/
+theorem account_names_unique {pwOk : Str → Str → Bool} {pst : PSt} (hr : PReachable pwOk pst) :
+    (∀ u ∈ pst.st.db.users, isUserHostmask u.name = false) ∧
+    ∀ u ∈ pst.st.db.users, ∀ v ∈ pst.st.db.users, asciiLower u.name = asciiLower v.name → u.id = v.id := by
+  have h := (preachable_pinv hr).names
+  exact ⟨fun u hu => h.1 _ (mem_sig hu), fun u hu v hv e => h.2 _ (mem_sig hu) _ (mem_sig hv) e⟩
+
+/-- **A name never resolves to two accounts either**: when `getUserId` (name cache and all)
+resolves an account name to an id, that id is the one stored account of that name -/
+theorem name_resolves_to_the_account {pwOk : Str → Str → Bool} {pst : PSt} (hr : PReachable pwOk pst)
+    (s : Str) (id : Nat) (hs : isUserHostmask s = false) (h : (getUserId pst.st s).2 = .ok id) :
+    ∃ u ∈ pst.st.db.users, u.id = id ∧ asciiLower u.name = asciiLower s ∧
+      ∀ v ∈ pst.st.db.users, asciiLower v.name = asciiLower s → v.id = id := by
+  have hp := preachable_pinv hr
+  have ha := getUserId_agrees hp.inv.recs hp.inv.cache s
+  rw [h] at ha
+  unfold Db.lookup at ha
+  simp only [hs, Bool.false_eq_true, if_false] at ha
+  cases hf : pst.st.db.users.find? (fun u => asciiLower u.name == asciiLower s) with
+  | none => rw [hf] at ha; cases ha
+  | some u =>
+    rw [hf] at ha
+    have hu := List.mem_of_find?_eq_some hf
+    have hn : asciiLower u.name = asciiLower s := by
+      have := List.find?_some hf
+      simpa using this
+    refine ⟨u, hu, ha, hn, ?_⟩
+    intro v hv hvn
+    rw [← ha]
+    exact (account_names_unique hr).2 v hv u hu (hvn.trans hn.symm)
+
 /-- the same through the User plugin: accounts never own masks with a hostmask in common -/
 theorem plugin_no_overlapping_masks {pwOk : Str → Str → Bool} {pst : PSt} (hr : PReachable pwOk pst) :
     NoCommon pst.st.db.users := (preachable_pinv hr).disjoint
